@@ -1047,6 +1047,11 @@ def replay(ctx, case):
     if "row" in case:
         table_replay(ctx, rows=[case["row"]])
         return
+    if case.get("kind") == "e2e_scaled":
+        ev, meta = run_e2e_scaled(case["seed"], case["dname"], case["opt"])
+        tr = {"cfg": {"n": 0}, "ev": [ev]}
+        judge(ctx, [tr], [[meta]], ctx.validate("NormalEqTrace", "NormalEqTrace.cfg", [tr], "replay"))
+        return
     g = ModelGen.from_json(case["g"])
     dtype = getattr(torch, case["dtype"])
     if case["kind"] == "e2e":
@@ -1055,6 +1060,60 @@ def replay(ctx, case):
         ev, meta = run_step(ctx, g, case["opt"], dtype, case["cfg"])
     tr = {"cfg": {"n": 0}, "ev": [ev]}
     judge(ctx, [tr], [[meta]], ctx.validate("NormalEqTrace", "NormalEqTrace.cfg", [tr], "replay"))
+
+
+def run_e2e_scaled(seed, dname, opt="GN"):
+    """GN with the DEFAULT solver on an ill-scaled but full-rank linear least-squares model  r(theta) = A diag(2^k) theta - b
+    (integer A, exact column scaling).  The step must be the least-squares solution; a solver that squares the condition
+    number (normal equations + rank truncation) loses the weakly scaled unknowns altogether.  Measure: norm-wise forward
+    error against the exact rational solution, in eps units; cond = ceil(cond_2(A S)) is logged for the tolerance."""
+    import random
+    import numpy as np
+    import torch
+    pp = pypose()
+    rng = random.Random(seed)
+    dtype = torch.float32 if dname == "float32" else torch.float64
+    eps = float(torch.finfo(dtype).eps)
+    n, m = rng.randint(2, 4), rng.randint(5, 9)
+    kmax = 6 if dname == "float32" else 14
+    while True:
+        A0 = [[rng.randint(-3, 3) for _ in range(n)] for _ in range(m)]
+        if np.linalg.matrix_rank(np.array(A0, dtype=float)) == n and np.linalg.cond(np.array(A0, dtype=float)) < 20:
+            break
+    ex = [rng.randint(-kmax, kmax) for _ in range(n)]
+    ex[0], ex[-1] = kmax, -kmax
+    th_true = [Fraction(rng.randint(-3, 3) or 1) / (Fraction(2) ** e) for e in ex]      # consistent system: residual 0 at the optimum
+    AS = [[Fraction(A0[i][j]) * Fraction(2) ** ex[j] for j in range(n)] for i in range(m)]
+    b = [sum(AS[i][j] * th_true[j] for j in range(n)) for i in range(m)]
+    At = torch.tensor([[float(v) for v in row] for row in AS], dtype=dtype)
+    bt = torch.tensor([float(v) for v in b], dtype=dtype)
+
+    class Lin(torch.nn.Module):
+        def __init__(self):
+            super().__init__()
+            self.theta = torch.nn.Parameter(torch.zeros(n, dtype=dtype))
+
+        def forward(self, inp):
+            return At @ self.theta - bt
+
+    model = Lin()
+    cond = int(math.ceil(np.linalg.cond(np.array([[float(v) for v in row] for row in AS]))))
+    ev = {"act": "e2e_scaled", "opt": opt, "dt": dname, "cond": min(cond, 10 ** 7), "err": CAP, "finite": False, "out": "ok",
+          "n": n, "m": m, "kexp": kmax}
+    meta = {"cls": {"kinds": "V", "frozen": False, "batched": False, "nblocks": 1, "branks": "0", "w": "none", "scaled": 2 * kmax},
+            "dtype": dname, "replay": dict(kind="e2e_scaled", seed=seed, dname=dname, opt=opt)}
+    try:
+        o = pp.optim.GN(model) if opt == "GN" else pp.optim.LM(model, strategy=pp.optim.strategy.Constant(damping=1e-30), min=1e-300)
+        o.step(torch.zeros(1, dtype=dtype))
+    except Exception as ex_:
+        ev["out"], meta["raised"] = "raise", repr(ex_)[:300]
+        return ev, meta
+    got = [Fraction(float(v)) for v in model.theta.detach()]
+    ev["finite"] = all(math.isfinite(float(v)) for v in model.theta.detach())
+    if ev["finite"]:
+        top = max(abs(v) for v in th_true)
+        ev["err"] = min(CAP, int(math.ceil(max(abs(a - t) for a, t in zip(got, th_true)) / top / Fraction(eps))))
+    return ev, meta
 
 
 class Batch:
@@ -1266,6 +1325,11 @@ def run(ctx):
             batch.add(ev, meta, "e2e%d/%s%s" % (i, opt, "/" + cfg["solver"] if cfg.get("solver", "default") != "default" else ""))
             emeas = [max(a, b) for a, b in zip(emeas, meta.get("measures", [0, 0, 0]))]
             ctx.cover(json.dumps(["e2e", opt, meta["cls"]["kinds"], meta.get("rank_deficiency", -1) > 0, str(dtype)]))
+    for i in range(6 if q else 40):                      # the default GN solver on ill-scaled full-rank systems
+        dname = "float32" if i % 2 == 0 else "float64"
+        ev, meta = run_e2e_scaled(ctx.seed * 1000 + i, dname)
+        batch.add(ev, meta, "e2e_scaled%d" % i)
+        ctx.cover(json.dumps(["e2e_scaled", dname, ev["n"], ev["m"]]))
     ctx.extra["e2e_max_ulps(normal_eq, null, lm_residual)"] = emeas
     ctx.extra["events_unjudged_code_overflow"] = batch.unjudged
     ctx.extra["events_recorded"] = batch.count
